@@ -226,6 +226,9 @@ func onePageState(b *centrifuge.MemoryMapBroker, reg *registry, si int, st map[s
 			res.Count("single_key_reads", 1)
 		}
 	}
+	if ok {
+		ok = writeWriteRead(b, ch, cfg, tbl, stored, rng, pub, fail, res)
+	}
 	c := 0
 	if ok {
 		c = 1
@@ -239,4 +242,96 @@ func onePageState(b *centrifuge.MemoryMapBroker, reg *registry, si int, st map[s
 	res.Count(fmt.Sprintf("built_variant_%d", variant), 1)
 	res.Done(1, c)
 	_ = b.Clear(bg, ch, centrifuge.MapClearOptions{})
+}
+
+// walkAll reads the whole state in one direction: in one piece (limit -1) and page by page.
+func walkAll(b *centrifuge.MemoryMapBroker, ch string, asc bool, limit, maxPages int) ([]string, string) {
+	var all []string
+	cursor := ""
+	for pi := 0; pi <= maxPages; pi++ {
+		got := readState(b, ch, centrifuge.MapReadStateOptions{Cursor: cursor, Limit: limit, Asc: asc})
+		if got.Err != "" {
+			return all, got.Err
+		}
+		for _, p := range got.Pubs {
+			all = append(all, p.Key)
+		}
+		if got.Next == "" {
+			return all, ""
+		}
+		if got.Next == cursor || len(got.Pubs) == 0 {
+			return all, "no progress"
+		}
+		cursor = got.Next
+	}
+	return all, "no termination"
+}
+
+// writeWriteRead (C21): the channel's sorted view was built by the reads before. Now a write that changes the order (key a gets
+// another score; or key rm is removed and a new key added) is followed by a write that changes nothing (key b re-published
+// with its score), with NO read in between; the next reads, in the direction of the cached view and in the other one, must
+// show the order of the new state (table: rescores / swaps).
+func writeWriteRead(b *centrifuge.MemoryMapBroker, ch string, cfg chanCfg, tbl map[string]any, stored map[string]statePub, rng *rand.Rand,
+	pub func(string, int64) bool, fail func(string, string), res *vh.Result) bool {
+	type seqT struct {
+		kind string
+		m    map[string]any
+	}
+	var cands []seqT
+	for _, x := range vh.List(tbl["rescores"]) {
+		cands = append(cands, seqT{"rescore", vh.Map(x)})
+	}
+	for _, x := range vh.List(tbl["swaps"]) {
+		cands = append(cands, seqT{"swap", vh.Map(x)})
+	}
+	if len(cands) == 0 {
+		return true
+	}
+	sq := cands[rng.Intn(len(cands))]
+	cachedAsc := rng.Intn(2) == 0
+	// the cached view: a full read in one direction
+	if _, e := walkAll(b, ch, cachedAsc, -1, 1); e != "" {
+		fail("pages:error", "ReadState: "+e)
+		return false
+	}
+	bk := vh.Str(sq.m["b"])
+	what := ""
+	if sq.kind == "rescore" {
+		a := vh.Str(sq.m["a"])
+		what = fmt.Sprintf("after [read asc=%v; publish %s with score %d; publish %s unchanged]", cachedAsc, a, scoreOf(vh.Int(sq.m["sc"])), bk)
+		if !pub(a, scoreOf(vh.Int(sq.m["sc"]))) {
+			return false
+		}
+	} else {
+		rm, add := vh.Str(sq.m["rm"]), vh.Str(sq.m["add"])
+		what = fmt.Sprintf("after [read asc=%v; remove %s; publish new key %s; publish %s unchanged]", cachedAsc, rm, add, bk)
+		sc := stored[rm].Sc
+		if r, err := b.Remove(bg, ch, rm, centrifuge.MapRemoveOptions{}); err != nil || r.Suppressed {
+			res.Drift("C21", fmt.Sprintf("write-write-read: remove %s: %v", rm, err), nil)
+			return false
+		}
+		delete(stored, rm)
+		if !pub(add, sc) {
+			return false
+		}
+	}
+	if !pub(bk, stored[bk].Sc) {
+		return false
+	}
+	for _, asc := range []bool{cachedAsc, !cachedAsc} {
+		var ref []string
+		for _, k := range vh.List(sq.m[map[bool]string{true: "asc", false: "desc"}[asc]]) {
+			ref = append(ref, vh.Str(k))
+		}
+		for _, limit := range []int{-1, 1, 2} {
+			got, e := walkAll(b, ch, asc, limit, len(ref)+1)
+			if e != "" || strings.Join(got, ",") != strings.Join(ref, ",") {
+				fail(fmt.Sprintf("pages:stale-sorted-view:%s:ord=%v", sq.kind, cfg.Ord),
+					fmt.Sprintf("%s a walk with page size %d asc=%v enumerated %v (error %q), the sort order of the state is %v", what, limit, asc, got, e, ref))
+				return false
+			}
+		}
+	}
+	res.Count("write_write_read_"+sq.kind, 1)
+	return true
 }
